@@ -190,6 +190,40 @@ def run(ctx):
                             ctx.disagree(f"iht:{cls}", "iht(t) is not -i t times the tensors", desc)
         except Exception as exc:
             ctx.disagree(f"iht-raises:{cls}:{type(exc).__name__}", str(exc), desc)
+        # ---- sparse form of the same expression: term list, term splitting and -i t H data, on an object that
+        #      has already been used (applied above / here) as well as on a fresh one
+        if fam == "gso1":
+            continue
+        try:
+            t = 0.25
+            for used in (False, True):
+                sh = ham if (used and cls == "SparseHamiltonian") else fqe.get_sparse_hamiltonian(op, conserve_spin=True, e_0=e0_arg)
+                if used and sh is not ham:
+                    w = C01.make_wfn(ctx, "single", norb, rng)
+                    w.apply(sh)
+                    w.expectationValue(sh)
+
+                def flat(tl):
+                    return [(complex(c), [tuple(map(int, x)) for x in a], [tuple(map(int, x)) for x in b]) for c, a, b in tl]
+                base = flat(sh.terms())
+                split = [x for h in sh.terms_hamiltonian() for x in flat(h.terms())]
+                ih = sh.iht(t)
+                ihb = flat(ih.terms())
+                ihs = [x for h in ih.terms_hamiltonian() for x in flat(h.terms())]
+                problems = []
+                if split != base:
+                    problems.append("terms_hamiltonian() does not list the terms of terms()")
+                if len(ihb) != len(base) or any(abs(a[0] - (-1j * t) * b[0]) > 1e-12 or a[1:] != b[1:] for a, b in zip(ihb, base)):
+                    problems.append("iht(t).terms() is not -i t times terms()")
+                if ihs != ihb:
+                    problems.append("iht(t).terms_hamiltonian() does not list the terms of iht(t).terms()")
+                # (the scalar is applied as a phase by the propagators, so iht(t).e_0() is 0 by design: C02 checks it once)
+                ctx.case(("sparse-iht", case, used) if base else None)
+                ctx.count(f"sparse-iht:{'used' if used else 'fresh'}")
+                if problems:
+                    ctx.disagree(f"iht:SparseHamiltonian:{'used' if used else 'fresh'}", "; ".join(problems), desc)
+        except Exception as exc:
+            ctx.disagree(f"sparse-iht-raises:{type(exc).__name__}", str(exc)[:300], desc)
 
     # ---- reverse_bubble_list vs the Lean model (Model/Hamil.lean bubbleDesc, proved sign-correct) ----
     from fqe.util import reverse_bubble_list
